@@ -82,7 +82,7 @@ Definition filled_front_bytes (s : rx) : Z :=
 
 (* SelectiveAck::new over the indices (relative to start) of non-default slots, < 64.
    Result: the 64 bits, LSB-first, as a list of bools of length 64. *)
-Definition SACK_DEPTH : Z := 64.
+Definition RX_SACK_DEPTH : Z := 64.
 
 Fixpoint sack_bits (l : list slot) (n : nat) : list bool :=
   match n with
